@@ -162,6 +162,22 @@ def check(case, ctx):
             if dict(t2.metadata) != md:
                 ctx.fail(f'metadata not preserved (indent={indent}, compact={compact})', expected=md, observed=dict(t2.metadata))
                 return
+            if ctx.sub == 'meta':
+                # the same round trip through the other documented entry points
+                from penman.codec import PENMANCodec
+                codec = PENMANCodec()
+                try:
+                    routes = [('PENMANCodec.format/parse', [codec.parse(codec.format(Tree(t, metadata=dict(md)), indent=indent, compact=compact))]),
+                              ('penman.iterparse', list(penman.iterparse(s))),
+                              ('PENMANCodec.iterparse', list(codec.iterparse(s)))]
+                except Exception as e:      # noqa: BLE001
+                    ctx.fail(f'codec format/parse/iterparse raised {type(e).__name__} (indent={indent}, compact={compact})', observed=str(e)[:300])
+                    return
+                ctx.transitions += 3
+                for what, ts in routes:
+                    if len(ts) != 1 or ts[0].node != t or dict(ts[0].metadata) != md:
+                        ctx.fail(f'{what}: round trip differs (indent={indent}, compact={compact})', expected=[t, md], observed=[(x.node, dict(x.metadata)) for x in ts])
+                        return
             toks = _tokens(s)
             if base is None:
                 base = toks
